@@ -77,10 +77,12 @@ def devcode(m):
 
 def check_followups(h, w, p, m, follow_key, k, where, repair_expected, labels):
     """After a faulted request: k failing reconnections, then a served request."""
-    w.connect_failures = k if repair_expected else 0
     attempts = (k if repair_expected else 0) + 1
     for a in range(attempts):
         last = a == attempts - 1
+        # the device cannot be found at all while one of the first k follow-ups is served
+        # (however often the manager looks for it), and is back for the last one
+        w.connect_failures = 0 if last else 10 ** 6
         dev_mode_before = w.mode
         rep, exc, ev, out = serve(h, w, follow_key)
         evs = events(ev)
@@ -325,7 +327,7 @@ def run_history(c):
             labels.append("after-timeout")
             continue
         if pending_repair:
-            w.connect_failures = s["k"]
+            w.connect_failures = 10 ** 6 if s["k"] > 0 else 0
         mark = len(w.log)
         if f is not None:
             # exchange index counted among the command's own exchanges, after any repair
